@@ -13,6 +13,8 @@
   windows.  Proved instead: the outputs lie in the range of the target sample, and the exact formulas per window.
 -/
 import IbicusModel.Lemmas.C01
+import IbicusModel.Lemmas.C01Isimip
+import IbicusModel.Lemmas.C01Sdm
 import IbicusModel.Props.C03
 
 namespace Props.C01
@@ -46,6 +48,13 @@ example : mean [10, 14] - mean [1, 2, 6] = 9 := by decide +kernel
 
 theorem dc_id (d : DeltaType) (obs H : List Rat) (hg : dcGuard d H H) : deltaChange d obs H H = obs :=
   Props.C03.dc_identity d obs H hg
+
+/-- … in running-window mode as well (every step assigned; multiplicative guard on every window) -/
+theorem dc_id_rw (dt : DeltaType) (L S h : Int) (dO dH : List Int) (obs H : List Rat)
+    (hS : S = 2 * h + 1) (hh : 0 ≤ h) (hSL : S ≤ L) (hlen : dO.length = obs.length) (hr : ∀ d ∈ dO, 1 ≤ d ∧ d ≤ 366)
+    (hm : dt = .multiplicative → ∀ c ∈ useCenters S dO, mean (take H (idxWindow L dH c)) ≠ 0) :
+    applyLocationDC (winOf (deltaChange dt)) L S dO dH dH obs H H = .ok (obs.map some) :=
+  Props.C03.dc_identity_rw dt L S h dO dH obs H hS hh hSL hlen hr hm
 
 /-! ## 3. Parametric QuantileMapping and ECDFM over any location–scale family: the location–scale map -/
 
@@ -196,6 +205,186 @@ example : (cdftMapping .additive .linear .linear [4, 2, 3] [20, 26, 22] [20, 26,
   refine (cdft_perm .additive [4, 2, 3] [20, 26, 22] rfl (by decide) (cdftShifted_additive_nodup _ _ (by decide)) ?_).2
   rw [h, hmin, hmax]
   decide +kernel
+
+/-! ## 5b. QuantileDeltaMapping (absolute), window-free: the observed location, by symmetry -/
+
+/-- **QDM absolute, `F = H`, tie-free, symmetric location–scale family, `linear_interpolation` ecdf (the default),
+    `cdf_threshold ≤ 1/2`**: `mean out = mean H + (loc_obs − loc_H)`.  The quantiles `τ_i = clip(r_i / (n − 1))` are
+    symmetric about ½ (ranks `0..n−1`, symmetric clipping), `ppf` is antisymmetric about the location, so the
+    scale terms `(scale_obs − scale_H) · Ginv(τ_i)` cancel in the sum — clipped or not. -/
+theorem qdm_mean_symm {Fam : LocScaleFam} (L : LocScaleLaws Fam) (t : Rat) (ht : t ≤ 1 / 2) (obs H : List Rat)
+    (hH : H.Nodup) (hn : 2 ≤ H.length) :
+    mean (qdmWindow Fam.toFamily .absolute .linear t none obs H H) = mean H + (Fam.loc obs - Fam.loc H) := by
+  have hne : H ≠ [] := by intro h; rw [h] at hn; simp at hn
+  have e : qdmWindow Fam.toFamily .absolute .linear t none obs H H
+      = H.map (fun x => (x + (Fam.loc obs - Fam.loc H)) +
+          (Fam.scale obs - Fam.scale H) * Fam.Ginv (thresholdCdf t (ecdfLin1 H x))) := by
+    unfold qdmWindow qdmSteps qdmStepsG qdmCore qdmCensor
+    apply List.map_congr_left
+    intro x _
+    simp only [LocScaleFam.toFamily, LocScaleFam.ppf, LocScaleFam.fit, ecdf1_linear]
+    ring
+  have h0 : (H.map (fun x => Fam.Ginv (thresholdCdf t (ecdfLin1 H x)))).sum = 0 :=
+    sum_symm_ecdf hH hn t ht Fam.Ginv L.Ginv_symm
+  have h2 : (H.map (fun x => (Fam.scale obs - Fam.scale H) * Fam.Ginv (thresholdCdf t (ecdfLin1 H x)))).sum = 0 := by
+    have := sum_map_mul (Fam.scale obs - Fam.scale H) (H.map (fun x => Fam.Ginv (thresholdCdf t (ecdfLin1 H x))))
+    rw [List.map_map, h0, mul_zero] at this
+    exact this
+  have h1 := mean_map_add (Fam.loc obs - Fam.loc H) H hne
+  rw [e]
+  unfold mean at h1 ⊢
+  rw [List.sum_map_add, h2, add_zero, List.length_map]
+  rw [List.length_map] at h1
+  exact h1
+
+/-- when the family's location estimator is the sample mean (`norm`, the executable double): the observed location -/
+theorem qdm_mean_symm_loc_mean {Fam : LocScaleFam} (L : LocScaleLaws Fam) (hloc : ∀ xs, Fam.loc xs = mean xs) (t : Rat)
+    (ht : t ≤ 1 / 2) (obs H : List Rat) (hH : H.Nodup) (hn : 2 ≤ H.length) :
+    mean (qdmWindow Fam.toFamily .absolute .linear t none obs H H) = mean obs := by
+  rw [qdm_mean_symm L t ht obs H hH hn, hloc, hloc]; ring
+
+example : mean (qdmWindow ratSigmoid.toFamily .absolute .linear (1 / 4) none [1, 2, 6] [10, 14, 21, 12] [10, 14, 21, 12])
+    = mean [1, 2, 6] :=
+  qdm_mean_symm_loc_mean ratSigmoid_laws (fun _ => rfl) _ (by norm_num) _ _ (by decide) (by decide)
+
+/-! ## 5c. ISIMIP, tas-like configuration (additive trend transfer, parametric step 6), one window -/
+
+section isimip
+open Model.Isimip Lemmas.IsimipModel Lemmas.C01Isimip
+
+/-- **ISIMIP `_apply_on_window`, `cm_future = cm_hist`, tas-like configuration, no trend removed, no clipping**
+    (`Lemmas.C01Isimip.TasCfg`: no bounds / thresholds, parametric quantile mapping, additive trend transfer;
+    `NoTrendRemoved`: `detrending = False`, or the significance test — an oracle of the model — finds no trend):
+    step 5 returns the observations, step 6 is the location–scale map
+    `out_i = loc_obs + (scale_obs / scale_H)(x_i − loc_H)`.
+    Guards: at least two values per sample, fitted scales `≠ 0`, KS test off or passed (oracle), every cdf value in
+    `[1e-10, 1 − 1e-10]`.  (When a significant trend *is* removed the same map acts on the detrended samples and the
+    trend of `cm_future` is added back: `Lemmas.IsimipModel.step7_step3_roundtrip`; not needed for the mean.) -/
+theorem isimip_add_fit (c : Cfg) (hc : TasCfg c) (Fam : LocScaleFam) (L : LocScaleLaws Fam)
+    (scaleAt : Rat → List Rat → Rat) (o : Oracles) (hks : (c.ksTest && !o.ksGood) = false) (d : Draws)
+    (obs H : List Rat) (yO yH : List Int) (hd : NoTrendRemoved c o obs H yO yH) (hO : 2 ≤ obs.length) (hH : 2 ≤ H.length)
+    (hsO : Fam.scale obs ≠ 0) (hsH : Fam.scale H ≠ 0) (hnc : NoClip Fam (1 / 10000000000) (Fam.fit H) H) :
+    applyOnWindow c (IsiFamily.ofLocScale Fam scaleAt) o d obs H H yO yH yH =
+      .ok (H.map (lsMap (Fam.loc obs) (Fam.scale obs) (Fam.loc H) (Fam.scale H))) := by
+  have hOne : obs ≠ [] := by intro h; rw [h] at hO; simp at hO
+  have hHne : H ≠ [] := by intro h; rw [h] at hH; simp at hH
+  have hb : (c.hasLowerBound && c.hasLowerThreshold) = false ∧ (c.hasUpperBound && c.hasUpperThreshold) = false := by
+    simp [Cfg.hasLowerBound, Cfg.hasUpperBound, hc.lb, hc.ub, ExtRat.gtNegInf, ExtRat.ltPosInf]
+  rw [applyOnWindow_eq, step3_noTrend c o obs H yO yH hd]
+  simp only []
+  rw [step4_of_no_bound_threshold_pair c d hb.1 hb.2]
+  simp only [Except.bind]
+  rw [step5_tas_self c hc o obs H hOne hHne]
+  simp only []
+  rw [step6_tas c hc Fam L scaleAt o hks obs obs H H hH hO hsH hsO]
+  simp only []
+  rw [step7_zero c _ H (by simp)]
+  congr 1
+  apply List.map_congr_left
+  intro x hx
+  obtain ⟨h0, h1⟩ := hnc x hx
+  unfold thrCdf
+  rw [thresholdCdf_id _ _ h0 h1]
+  unfold lsMap LocScaleFam.ppf LocScaleFam.cdf LocScaleFam.fit
+  simp only []
+  rw [L.Ginv_G]
+
+/-- … hence the fit of the output — mean **and** calibrated spread — is the fit of the observations -/
+theorem isimip_add_fit_eq (c : Cfg) (hc : TasCfg c) (Fam : LocScaleFam) (L : LocScaleLaws Fam)
+    (scaleAt : Rat → List Rat → Rat) (o : Oracles) (hks : (c.ksTest && !o.ksGood) = false) (d : Draws)
+    (obs H : List Rat) (yO yH : List Int) (hd : NoTrendRemoved c o obs H yO yH) (hO : 2 ≤ obs.length) (hH : 2 ≤ H.length)
+    (hsO : 0 < Fam.scale obs) (hsH : 0 < Fam.scale H) (hnc : NoClip Fam (1 / 10000000000) (Fam.fit H) H) :
+    (applyOnWindow c (IsiFamily.ofLocScale Fam scaleAt) o d obs H H yO yH yH).map Fam.fit = .ok (Fam.fit obs) := by
+  have hHne : H ≠ [] := by intro h; rw [h] at hH; simp at hH
+  rw [isimip_add_fit c hc Fam L scaleAt o hks d obs H yO yH hd hO hH (ne_of_gt hsO) (ne_of_gt hsH) hnc]
+  simp only [Except.map]
+  rw [fit_lsMap L _ _ H hHne hsO hsH]
+  rfl
+
+-- executable instance (ISIMIP's tas settings, default oracles = no significant trend, KS passed): mean and spread
+example : (applyOnWindow { trendMethod := .additive, nonparametricQm := false, detrending := true }
+      (IsiFamily.ofLocScale Model.Family.ratSigmoid meanAbsDevAt) {} {} [1, 2, 6] [10, 14, 18, 22] [10, 14, 18, 22]
+      [2000, 2000, 2001] [2000, 2000, 2001, 2001] [2000, 2000, 2001, 2001]).map Model.Family.ratSigmoid.fit
+    = .ok (Model.Family.ratSigmoid.fit [1, 2, 6]) :=
+  isimip_add_fit_eq { trendMethod := .additive, nonparametricQm := false, detrending := true }
+    ⟨rfl, rfl, rfl, rfl, rfl, rfl, rfl⟩ Model.Family.ratSigmoid ratSigmoid_laws meanAbsDevAt {} rfl {}
+    [1, 2, 6] [10, 14, 18, 22] [2000, 2000, 2001] [2000, 2000, 2001, 2001]
+    (Or.inr ⟨rfl, rfl, rfl, rfl, rfl⟩) (by decide) (by decide) (by decide +kernel) (by decide +kernel) (by decide +kernel)
+
+/-- the configuration is satisfiable: ISIMIP's tas settings with `detrending = False` -/
+example : TasCfg { trendMethod := .additive, nonparametricQm := false, detrending := false } :=
+  ⟨rfl, rfl, rfl, rfl, rfl, rfl, rfl⟩
+
+end isimip
+
+/-! ## 5d. ScaledDistributionMapping (absolute) at equal sample sizes; the defect that was repaired (F3) -/
+
+section sdm
+open Lemmas.C01Sdm
+
+/-- **absolute SDM, `F = H`, `|obs| = |H|`, no clipping, repaired code**: the recurrence-interval scaling collapses
+    (`ri_obs · ri_F / ri_H = ri_obs`), the scaling term vanishes, and the output is the observations re-ordered like the
+    model — **exactly the observed multiset**.  Guards: fitted scales of the detrended samples positive; every cdf
+    value in `[1e-10, 1 − 1e-10]` (`NoClip`, decidable).  No tie-freeness is needed: equal model values receive the
+    stable ranks of the model's `argsort`; for tied values numpy's unstable sort may permute the outputs among the tied
+    positions, which does not change the multiset. -/
+theorem sdm_abs_perm {Fam : LocScaleFam} (L : LocScaleLaws Fam) (obs H : List Rat) (hlen : obs.length = H.length)
+    (hso : 0 < Fam.scale (detrendConst obs)) (hsh : 0 < Fam.scale (detrendConst H))
+    (hco : NoClip Fam defaultCdfThreshold (Fam.fit (detrendConst obs)) (detrendConst obs))
+    (hch : NoClip Fam defaultCdfThreshold (Fam.fit (detrendConst H)) (detrendConst H)) :
+    (sdmAbsolute Fam obs H H).Perm obs := by
+  rw [sdmAbsolute_self L obs H hlen hso hsh hco hch]
+  have hl : (detrendConst obs).length = (detrendConst H).length := by simp [detrendConst, hlen]
+  have h1 := (sortLike_perm (detrendConst obs) (detrendConst H) hl).map (fun b => b + mean obs)
+  have h2 : (detrendConst obs).map (fun b => b + mean obs) = obs := by
+    unfold detrendConst
+    rw [List.map_map]
+    apply map_eq_self
+    intro x _
+    simp
+  rwa [h2] at h1
+
+theorem sdm_abs_mean {Fam : LocScaleFam} (L : LocScaleLaws Fam) (obs H : List Rat) (hlen : obs.length = H.length)
+    (hso : 0 < Fam.scale (detrendConst obs)) (hsh : 0 < Fam.scale (detrendConst H))
+    (hco : NoClip Fam defaultCdfThreshold (Fam.fit (detrendConst obs)) (detrendConst obs))
+    (hch : NoClip Fam defaultCdfThreshold (Fam.fit (detrendConst H)) (detrendConst H)) :
+    mean (sdmAbsolute Fam obs H H) = mean obs :=
+  mean_perm (sdm_abs_perm L obs H hlen hso hsh hco hch)
+
+/-- `_apply_on_window_absolute_sdm` **before the repair** (F3): the last line was
+    `bias_corrected[reverse_sorting_idx] + trend`, without `− (mean(cm_hist) − mean(obs))` -/
+def legacySdmAbsolute (Fam : LocScaleFam) (obs H F : List Rat) : List Rat :=
+  let bc := sdmAbsoluteSorted Fam obs H F
+  let fd := detrendConst F
+  let trend := subL F fd
+  let back := takeIdx bc (rankOf fd)
+  List.zipWith (fun b tr => b + tr) back trend
+
+/-- the legacy output is the repaired output plus the full mean bias of the model, element by element -/
+theorem legacy_sdm_eq (Fam : LocScaleFam) (obs H F : List Rat) :
+    legacySdmAbsolute Fam obs H F = (sdmAbsolute Fam obs H F).map (fun v => v + (mean H - mean obs)) := by
+  unfold legacySdmAbsolute sdmAbsolute
+  simp only []
+  rw [List.map_zipWith]
+  congr 1
+  funext b tr
+  ring
+
+/-- **F3, on a concrete 4-point witness** (executable family, bias +10, all guards checked by `decide +kernel`): the
+    legacy formula returns a series whose mean is the *model's* mean, not the observed one — the mean bias is not
+    removed at all. -/
+theorem legacy_sdm_abs_counterexample :
+    mean (legacySdmAbsolute ratSigmoid [1, 2, 4, 5] [11, 13, 14, 18] [11, 13, 14, 18]) = mean [11, 13, 14, 18] ∧
+      mean [11, 13, 14, 18] ≠ mean [1, 2, 4, 5] := by
+  have hperm := sdm_abs_perm ratSigmoid_laws [1, 2, 4, 5] [11, 13, 14, 18] rfl (by decide +kernel) (by decide +kernel)
+    (by decide +kernel) (by decide +kernel)
+  have hne : sdmAbsolute ratSigmoid [1, 2, 4, 5] [11, 13, 14, 18] [11, 13, 14, 18] ≠ [] := by
+    intro h; rw [h] at hperm; simpa using hperm.length_eq
+  constructor
+  · rw [legacy_sdm_eq, mean_map_add _ _ hne, mean_perm hperm]; ring
+  · decide +kernel
+
+end sdm
 
 /-! ## 6. The windowed / unequal-length clause — *partial*
 
